@@ -83,10 +83,18 @@ def run_config(cfg, res):
       if len(dppool) < 8:
         dppool.append(queued[-1])
     transport.clear()
+    # the sending transport's buffer fills up in the middle of a message every now and then (slow receiver): it pauses
+    # its producer from inside write(), the harness lets it drain and resumes
+    transport.hw = r.choice([None, None, 40, 200, 1000, 4096])
+    transport.unflushed = 0
     for name, dp in queued:
       rl.manager.sendDatapoint(name, dp)
     guard = 0
-    while factory.queueSize and guard < 10000:
+    while (factory.queueSize or conn.protocol.paused) and guard < 20000:
+      if conn.protocol.paused:
+        transport.flush()
+        conn.protocol.resumeProducing()
+        res.count('mid_message_pauses')
       fake.advance(settings.TIME_TO_DEFER_SENDING)
       guard += 1
     fake.advance(settings.TIME_TO_DEFER_SENDING)
@@ -147,7 +155,7 @@ def run_config(cfg, res):
 
 def finalize(merged, tier):
   c = merged['counters']
-  return [] if c.get('listener_sessions') and c.get('messages') else ['no listener sessions or messages observed']
+  return [] if c.get('listener_sessions') and c.get('messages') and c.get('mid_message_pauses') else ['no listener sessions, messages or mid-message pauses observed']
 
 
 def classify(v):
